@@ -182,6 +182,18 @@ fn mixed_case(values: &[&str]) -> String {
     format!("{}{}", &v[..start], tail)
 }
 
+/// ... and one with two-, three- and four-byte characters in it (behind the last '/' of a URL; appended otherwise)
+fn non_ascii(values: &[&str]) -> String {
+    let v = values[0];
+    if v.contains("://") {
+        format!("{}{}", v, if v.ends_with('/') { "r\u{e9}sum\u{e9}" } else { "/r\u{e9}sum\u{e9}" })
+    } else if let Some((first, rest)) = v.split_once('\n') {
+        format!("{} \u{e9}\u{20ac}\n{} \u{1f600}", first, rest)
+    } else {
+        format!("{} \u{e9}\u{20ac}\u{1f600}", v)
+    }
+}
+
 // ---- the row macro ------------------------------------------------------------------------------------
 
 macro_rules! row {
@@ -306,11 +318,11 @@ macro_rules! d3_alt { ($($t:tt)*) => { row!(view = "dep3::PatchHeader", open = o
 // per-shape macros ($m is a view macro)
 /// setter takes &str, getter returns Option<String>
 macro_rules! str_row { ($m:ident, $acc:literal, $field:literal, $prior:literal, [$($v:literal),+], $set:ident, $get:ident) => {
-    $m!($acc, $field, $prior, clear = false, values = [$($v.to_string()),+, mixed_case(&[$($v),+])],
+    $m!($acc, $field, $prior, clear = false, values = [$($v.to_string()),+, mixed_case(&[$($v),+]), non_ascii(&[$($v),+])],
         set = |s, x| s.$set(&x), clear_set = |_s| (), clear_want = "None", get = |s| s.$get(), want = |x| Some(x)) }; }
 /// setter takes Option<&str>, getter returns Option<String>
 macro_rules! optstr_row { ($m:ident, $acc:literal, $field:literal, $prior:literal, [$($v:literal),+], $set:ident, $get:ident) => {
-    $m!($acc, $field, $prior, clear = true, values = [$($v.to_string()),+, mixed_case(&[$($v),+])],
+    $m!($acc, $field, $prior, clear = true, values = [$($v.to_string()),+, mixed_case(&[$($v),+]), non_ascii(&[$($v),+])],
         set = |s, x| s.$set(Some(&x)), clear_set = |s| s.$set(None), clear_want = "None", get = |s| s.$get(), want = |x| Some(x)) }; }
 /// setter takes Relations by value, getter returns Option<Relations>
 macro_rules! rel_row { ($m:ident, $acc:literal, $field:literal, $set:ident, $get:ident) => {
@@ -327,7 +339,7 @@ macro_rules! optrel_row { ($m:ident, $acc:literal, $field:literal, $set:ident, $
 /// setter takes Vec<String>, getter returns Option<Vec<String>>
 macro_rules! strvec_row { ($m:ident, $acc:literal, $field:literal, $prior:literal, [$a:literal, $b:literal], $set:ident, $get:ident) => {
     $m!($acc, $field, $prior, clear = false,
-        values = [vec![$a.to_string(), $b.to_string()], vec![$a.to_string()]],
+        values = [vec![$a.to_string(), $b.to_string()], vec![$a.to_string()], vec![$b.to_string(), $a.to_string(), format!("{}3", $b)]],
         set = |s, x| s.$set(x), clear_set = |_s| (), clear_want = "None", get = |s| s.$get(), want = |x| Some(x)) }; }
 /// setter takes Vec<checksum>, getter returns Vec<checksum>
 macro_rules! cksum_row { ($m:ident, $acc:literal, $field:literal, $ty:ident, $hash:ident, $set:ident, $get:ident) => {
@@ -403,7 +415,8 @@ fn rows_control_source() -> Vec<Row> {
     v.push(str_row!(csrc, "vcs_hg", "Vcs-Hg", "https://old.example.com/hg", ["https://hg.example.com/foo", "https://example.com/h"], set_vcs_hg, vcs_hg));
     v.push(optstr_row!(csrc, "vcs_browser", "Vcs-Browser", "https://old.example.com/browse", ["https://salsa.debian.org/foo/bar", "https://example.com/b"], set_vcs_browser, vcs_browser));
     v.push(csrc!("uploaders", "Uploaders", "Old <old@example.com>", clear = false,
-        values = [vec!["A <a@example.com>".to_string(), "B <b@example.com>".to_string()], vec!["C <c@example.com>".to_string()]],
+        values = [vec!["A <a@example.com>".to_string(), "B <b@example.com>".to_string()], vec!["C <c@example.com>".to_string()],
+                  vec!["B <b@example.com>".to_string(), "J\u{e9}r\u{f4}me \u{141}ukasz <j@example.com>".to_string(), "A <a@example.com>".to_string()]],
         set = |s, x| s.set_uploaders(&x.iter().map(|u| u.as_str()).collect::<Vec<_>>()), clear_set = |_s| (), clear_want = "None",
         get = |s| s.uploaders(), want = |x| Some(x)));
     v.push(optstr_row!(csrc, "architecture", "Architecture", "i386", ["any", "linux-any all"], set_architecture, architecture));
@@ -755,6 +768,10 @@ fn read_control() -> Vec<ReadRow> {
             ("Source: foo\nUploaders: A <a@example.com>, B <b@example.com>\n", "Some([\"A <a@example.com>\", \"B <b@example.com>\"])"),
             ("Source: foo\nUploaders: A <a@example.com>,\n B <b@example.com>,\n C <c@example.com>\n", "Some([\"A <a@example.com>\", \"B <b@example.com>\", \"C <c@example.com>\"])"),
             ("Source: foo\nUploaders:\n A <a@example.com>,\n B <b@example.com>\n", "Some([\"A <a@example.com>\", \"B <b@example.com>\"])"),
+            // the layout `wrap-and-sort -t` writes (a comma after the last one too), no blank after the comma, a doubled comma
+            ("Source: foo\nUploaders:\n A <a@example.com>,\n B <b@example.com>,\n", "Some([\"A <a@example.com>\", \"B <b@example.com>\"])"),
+            ("Source: foo\nUploaders: A <a@example.com>,B <b@example.com>\n", "Some([\"A <a@example.com>\", \"B <b@example.com>\"])"),
+            ("Source: foo\nUploaders: A <a@example.com>,, B <b@example.com>\n", "Some([\"A <a@example.com>\", \"B <b@example.com>\"])"),
             ("Source: foo\n", "None"),
         ]),
         read_row!("control::Source", "priority", |d| csource(d)?.priority(), [
@@ -869,6 +886,8 @@ fn read_apt() -> Vec<ReadRow> {
         read_row!("apt::Source", "uploaders", |d| asource(d)?.uploaders(), [
             ("Package: foo\nUploaders: A <a@example.com>, B <b@example.com>\n", "Some([\"A <a@example.com>\", \"B <b@example.com>\"])"),
             ("Package: foo\nUploaders: A <a@example.com>,\n B <b@example.com>\n", "Some([\"A <a@example.com>\", \"B <b@example.com>\"])"),
+            ("Package: foo\nUploaders: A <a@example.com>,\n B <b@example.com>,\n", "Some([\"A <a@example.com>\", \"B <b@example.com>\"])"),
+            ("Package: foo\nUploaders: A <a@example.com>,B <b@example.com>\n", "Some([\"A <a@example.com>\", \"B <b@example.com>\"])"),
             ("Package: foo\n", "None"),
         ]),
         read_row!("apt::Source", "binary", |d| asource(d)?.binary().map(|r| r.entries().map(|e| e.to_string()).collect::<Vec<_>>()), [
@@ -891,6 +910,8 @@ fn read_apt() -> Vec<ReadRow> {
         read_row!("apt::Package", "tags(\"Tag\")", |d| apackage(d)?.tags("Tag"), [
             ("Package: foo\nTag: role::program, uitoolkit::gtk\n", "Some([\"role::program\", \"uitoolkit::gtk\"])"),
             ("Package: foo\nTag: role::program,\n uitoolkit::gtk\n", "Some([\"role::program\", \"uitoolkit::gtk\"])"),
+            ("Package: foo\nTag: role::program,\n uitoolkit::gtk,\n", "Some([\"role::program\", \"uitoolkit::gtk\"])"),
+            ("Package: foo\nTag: role::program,uitoolkit::gtk\n", "Some([\"role::program\", \"uitoolkit::gtk\"])"),
             ("Package: foo\n", "None"),
         ]),
         read_row!("apt::Package", "depends", |d| apackage(d)?.depends().map(|r| r.entries().map(|e| e.to_string()).collect::<Vec<_>>()), [
@@ -964,6 +985,15 @@ fn read_changes_buildinfo() -> Vec<ReadRow> {
         v
     }
     vec![
+        // -- the pool directory of the source package: pool/<area>/<first letter, or "lib" + the letter after it>/<source>
+        read_row!("changes::Changes", "get_pool_path", |d| changes(d)?.get_pool_path(), [
+            ("Format: 1.8\nSource: hello\nFiles:\n d41d8cd9 1 devel optional hello_1.dsc\n", "Some(\"pool/main/h/hello\")"),
+            ("Format: 1.8\nSource: hello\nFiles:\n d41d8cd9 1 contrib/devel optional hello_1.dsc\n d41d8cd9 2 contrib/devel optional hello_1.tar.xz\n", "Some(\"pool/contrib/h/hello\")"),
+            ("Format: 1.8\nSource: libfoo\nFiles:\n d41d8cd9 1 non-free/libs optional libfoo_1.dsc\n", "Some(\"pool/non-free/libf/libfoo\")"),
+            ("Format: 1.8\nSource: lib\nFiles:\n d41d8cd9 1 libs optional lib_1.dsc\n", "Some(\"pool/main/lib/lib\")"),
+            ("Format: 1.8\nSource: hello\n", "None"),
+            ("Format: 1.8\nFiles:\n d41d8cd9 1 devel optional hello_1.dsc\n", "None"),
+        ]),
         // -- changes::Changes (deb-changes(5)); every getter but format is getter-only
         read_row!("changes::Changes", "source / distribution / maintainer / changed_by", |d| { let c = changes(d)?; (c.source(), c.distribution(), c.maintainer(), c.changed_by()) }, [
             ("Format: 1.8\nSource: hello\nDistribution: unstable\nMaintainer: A <a@example.com>\nChanged-By: B <b@example.com>\n",
